@@ -155,28 +155,24 @@ inductive Site
   | sel_select | sel_pong | sel_empty | sel_get
   deriving DecidableEq, Repr
 
-/-! ## shared sub-machines -/
+/-! ## shared sub-machines
 
-inductive FsRes
-  | next (s : State) (p : FsPc)
-  | done (s : State)
-  | fail (s : State)          -- AssertionError out of `fast_schedule`
+`fast_schedule` and `_select` are executed by several threads; they are written once, with the caller's continuation
+(how the caller's program counter moves) passed in: `next` = the sub-machine goes on at another of its positions,
+`done` = it returned, `fail`/`crash` = an exception left it. -/
 
-/-- one action of `fast_schedule(t, first)`; touches only `ready`, `event`, `hubPipe` -/
-def fsStep (s : State) (t : TaskId) (first : Bool) : FsPc → FsRes
-  | .assert => if t ∈ s.ready then .fail s else .next s .append
-  | .append => .next { s with ready := if first then t :: s.ready else s.ready ++ [t] } .signal
-  | .signal => if s.threaded then .done { s with event := true } else .done { s with hubPipe := s.hubPipe + 1 }
+/-- one action of `fast_schedule(t, first)` (+ `break_idle`); touches only `ready`, `event`, `hubPipe` -/
+def fsK (s : State) (t : TaskId) (first : Bool) (p : FsPc)
+    (next : State → FsPc → State) (done fail : State → State) : State :=
+  match p with
+  | .assert => if t ∈ s.ready then fail s else next s .append                -- AssertionError
+  | .append => next { s with ready := if first then t :: s.ready else s.ready ++ [t] } .signal
+  | .signal => if s.threaded then done { s with event := true } else done { s with hubPipe := s.hubPipe + 1 }
 
 def fsSite (s : State) (first : Bool) : FsPc → Site
   | .assert => .fs_assert
   | .append => if first then .fs_appendleft else .fs_append
   | .signal => if s.threaded then .bi_set else .cy_ping
-
-inductive HubRes
-  | next (s : State) (p : HubPc)
-  | done (s : State)          -- `_select` returned
-  | crash (s : State)         -- an exception left `_select`
 
 /-- is the CallLaterTask registered with the hub and its pinger readable? -/
 def cltReadable (s : State) : Option TaskId :=
@@ -184,32 +180,30 @@ def cltReadable (s : State) : Option TaskId :=
   | some c => if c ∈ s.hubTasks ∧ s.cltPipe > 0 then some c else none
   | none => none
 
-/-- one action of `SelectHub._select` (run by the hub thread, or by the scheduler thread in inline mode) -/
-def hubStep (s : State) : HubPc → Option HubRes
+/-- one action of `SelectHub._select` (run by the hub thread, or by the scheduler thread in inline mode);
+    `none` = blocked -/
+def hubK (s : State) (p : HubPc) (next : State → HubPc → State) (done crash : State → State) : Option State :=
+  match p with
   | .select =>
-    if s.hubPipe > 0 then some (.next s (.pong (cltReadable s).isSome))
+    if s.hubPipe > 0 then some (next s (.pong (cltReadable s).isSome))
     else match cltReadable s with
-      | some c => some (.next { s with hubTasks := s.hubTasks.erase c } (.ret c .assert))
+      | some c => some (next { s with hubTasks := s.hubTasks.erase c } (.ret c .assert))
       | none => none                                    -- blocked in select
-  | .pong cp => if s.hubPipe = 0 then none else some (.next { s with hubPipe := s.hubPipe - 1024 } (.empty cp))
+  | .pong cp => if s.hubPipe = 0 then none else some (next { s with hubPipe := s.hubPipe - 1024 } (.empty cp))
   | .empty cp =>
-    if s.incoming ≠ [] then some (.next s (.get cp))
+    if s.incoming ≠ [] then some (next s (.get cp))
     else if cp then
       match s.cltTask with
-      | some c => some (.next { s with hubTasks := s.hubTasks.erase c } (.ret c .assert))
+      | some c => some (next { s with hubTasks := s.hubTasks.erase c } (.ret c .assert))
       | none => none
-    else some (.done s)
+    else some (done s)
   | .get cp =>
     match s.incoming with
     | [] => none                                        -- Queue.get(True) on an empty queue blocks
     | x :: rest =>
-      if x ∈ s.hubTasks then some (.crash { s with incoming := rest })      -- `assert task not in tasks`
-      else some (.next { s with incoming := rest, hubTasks := s.hubTasks ++ [x] } (.empty cp))
-  | .ret t p =>
-    match fsStep s t false p with
-    | .next s' p' => some (.next s' (.ret t p'))
-    | .done s' => some (.done s')
-    | .fail s' => some (.crash s')
+      if x ∈ s.hubTasks then some (crash { s with incoming := rest })       -- `assert task not in tasks`
+      else some (next { s with incoming := rest, hubTasks := s.hubTasks ++ [x] } (.empty cp))
+  | .ret t p => some (fsK s t false p (fun s' p' => next s' (.ret t p')) done crash)
 
 def hubSite (s : State) : HubPc → Site
   | .select => .sel_select
@@ -217,11 +211,6 @@ def hubSite (s : State) : HubPc → Site
   | .empty _ => .sel_empty
   | .get _ => .sel_get
   | .ret _ p => fsSite s false p
-
-/-- `select` timing out: nothing was readable, `_select` returns without doing anything -/
-def hubTimeout (s : State) : HubPc → Option State
-  | .select => if s.hubPipe = 0 ∧ (cltReadable s).isNone then some s else none
-  | _ => none
 
 /-! ## the scheduler thread -/
 
@@ -251,12 +240,8 @@ def stepS (s : State) : Option State :=
     else some { s with s := .cycPop }
   | .idleWait => if s.event then some { s with s := .idleClear } else none
   | .idleClear => some { s with event := false, s := .cycPop }
-  | .hub p =>
-    match hubStep s p with
-    | none => none
-    | some (.next s' p') => some { s' with s := .hub p' }
-    | some (.done s') => some (afterIdle s')
-    | some (.crash s') => some { s' with s := .runLen }     -- not reachable; an exception would leave `run`
+  | .hub p => hubK s p (fun s' p' => { s' with s := .hub p' }) afterIdle
+      (fun s' => { s' with s := .runLen })                  -- (crash: not reachable; an exception would leave `run`)
   | .cycPop =>
     match s.ready with
     | [] => some { s with s := .runLen }                    -- IndexError → `return False`
@@ -277,10 +262,9 @@ def stepS (s : State) : Option State :=
   | .stFs st p =>
     match s.tasks[st]? with
     | some (.st tg _) =>
-      match fsStep s tg true p with
-      | .next s' p' => some { s' with s := .stFs st p' }
-      | .done s' => some { setTask s' st (.st tg true) with s := .runLen }
-      | .fail s' => some { setTask s' st (.st tg true) with s := .runLen }     -- exception: task de-scheduled
+      some (fsK s tg true p (fun s' p' => { s' with s := .stFs st p' })
+        (fun s' => { setTask s' st (.st tg true) with s := .runLen })
+        (fun s' => { setTask s' st (.st tg true) with s := .runLen }))        -- exception: task de-scheduled
     | _ => none
   | .syRelIn k =>
     match s.tasks[k]? with
@@ -323,12 +307,9 @@ def siteS (s : State) : Site :=
 
 def stepH (s : State) : Option State :=
   match s.h with
-  | .hub p =>
-    match hubStep s p with
-    | none => none
-    | some (.next s' p') => some { s' with h := .hub p' }
-    | some (.done s') => some { s' with h := .hub .select }      -- `while not _scheduler._hasQuit: _select(...)`
-    | some (.crash s') => some { s' with h := .crashed }
+  | .hub p => hubK s p (fun s' p' => { s' with h := .hub p' })
+      (fun s' => { s' with h := .hub .select })                  -- `while not _scheduler._hasQuit: _select(...)`
+      (fun s' => { s' with h := .crashed })
   | _ => none
 
 /-! ## foreign threads -/
@@ -376,10 +357,9 @@ def stepF (s : State) (i : Nat) : Option State :=
       let (s', st) := alloc s (.st t false)
       some (setF s' i { f with pc := .fsp ctx st .assert })
     | .fsp ctx st p =>
-      match fsStep s st false p with
-      | .next s' p' => some (setF s' i { f with pc := .fsp ctx st p' })
-      | .done s' => some (setF s' i { f with pc := ctx.ret })
-      | .fail s' => some (setF s' i { f with pc := .crashed })
+      some (fsK s st false p (fun s' p' => setF s' i { f with pc := .fsp ctx st p' })
+        (fun s' => setF s' i { f with pc := ctx.ret })
+        (fun s' => setF s' i { f with pc := .crashed }))
     | .seCreate =>
       let (s', k) := alloc s (.sync (i + 2) true true 0)
       some (setF s' i { f with pc := .spawn .se k, syncer := k })
@@ -417,16 +397,17 @@ def step (s : State) : Tid → Option State
   | 1 => stepH s
   | i + 2 => stepF s i
 
-/-- polling time-outs: `Event.wait(CYCLE_MAXIMUM)` returning unset, `select` returning nothing -/
+/-- polling time-outs: `Event.wait(CYCLE_MAXIMUM)` returning with the flag unset, `select` returning nothing
+    (`_select` then returns without doing anything) -/
 def stepT (s : State) : Tid → Option State
   | 0 =>
     match s.s with
     | .idleWait => if s.event then none else some { s with s := .idleClear }
-    | .hub p => (hubTimeout s p).map afterIdle
+    | .hub .select => if s.hubPipe = 0 ∧ cltReadable s = none then some { s with s := .cycPop } else none
     | _ => none
   | 1 =>
     match s.h with
-    | .hub p => (hubTimeout s p).map fun s' => { s' with h := .hub .select }
+    | .hub .select => if s.hubPipe = 0 ∧ cltReadable s = none then some s else none
     | _ => none
   | _ => none
 
